@@ -944,6 +944,8 @@ From Coq Require Import ZArith Bool String List.
 Import ListNotations.
 Local Open Scope Z_scope.
 Inductive round_outcome := RCont | RBrk.
+(* statement tree of a small function, leaves as source text (see do_effects) *)
+Inductive eff := EStmt (s : string) | EIf (c : string) (t e : list eff) | EWhile (c : string) (b : list eff) | EReturn (s : string).
 Definition wrapu (n x : Z) : Z := x mod (2 ^ n).
 Definition wraps (n x : Z) : Z := (x + 2 ^ (n - 1)) mod (2 ^ n) - 2 ^ (n - 1).
 '''
@@ -1113,6 +1115,74 @@ def main():
         parts.append(f'Definition {cls}_{coq_ident(method)}_gates : list (string * list string * bool) :=\n  [' +
                      ';\n   '.join(f'({q(c)}, [{"; ".join(q(x) for x in cs)}], {"true" if r else "false"})' for c, cs, r in rows) + '].\n')
 
+    def do_effects(cls, method, src):
+        """the statement tree of a small member function: `if` / `while` / `return` as structure, every other statement (declarations,
+        calls, assignments, macro invocations) as its source text with white space normalised. The Coq side gives each leaf text a
+        meaning through a fixed dictionary and proves the interpreted tree equal to the model's function; a text the dictionary does
+        not know makes that proof fail."""
+        m = None
+        for doc in tr.ast(f'{cls}::{method}', ['rs_driver/api/lidar_driver.hpp']):
+            if doc['kind'] == 'CXXMethodDecl' and doc.get('name') == method and any(x['kind'] == 'CompoundStmt' for x in doc.get('inner', [])):
+                m = doc
+        if m is None:
+            raise Unsupported(f'{cls}::{method} not found')
+        lr = LoopRound(tr, m, '', os.path.join(repo, 'src', src), [])
+        q = lambda t: '"' + t.replace('"', '""') + '"%string'
+        def is_macro(n):
+            b = n.get('range', {}).get('begin', {})
+            return 'expansionLoc' in b
+        def macro_text(n):
+            # the whole invocation NAME(...) as written: from the macro's name to its matching parenthesis
+            off = n['range']['begin']['expansionLoc']['offset']
+            s = lr.src
+            j = off
+            while j < len(s) and (chr(s[j]).isalnum() or s[j] == 95):
+                j += 1
+            k2 = j
+            while k2 < len(s) and chr(s[k2]).isspace():
+                k2 += 1
+            if k2 < len(s) and s[k2] == 40:
+                depth = 0
+                while k2 < len(s):
+                    if s[k2] == 40: depth += 1
+                    if s[k2] == 41:
+                        depth -= 1
+                        if depth == 0:
+                            break
+                    k2 += 1
+                j = k2 + 1
+            return ' '.join(s[off:j].decode('utf8', 'replace').split())
+        def block(n):
+            if n is None:
+                return '[]'
+            if n.get('kind') == 'CompoundStmt' and not is_macro(n):
+                return '[' + '; '.join(stmt(c) for c in n.get('inner', []) if c.get('kind') != 'NullStmt') + ']'
+            return '[' + stmt(n) + ']'
+        def stmt(n):
+            k = n.get('kind')
+            if is_macro(n):
+                return f'EStmt {q(macro_text(n))}'
+            if k == 'IfStmt':
+                inner = n['inner']
+                els = inner[2] if len(inner) > 2 else None
+                return f'EIf {q(lr.text_of(inner[0]))} {block(inner[1])} {block(els)}'
+            if k == 'WhileStmt':
+                return f'EWhile {q(lr.text_of(n["inner"][0]))} {block(n["inner"][1])}'
+            if k == 'ReturnStmt':
+                return f'EReturn {q(lr.text_of(n["inner"][0]) if n.get("inner") else "")}'
+            if k in ('ForStmt', 'DoStmt', 'SwitchStmt', 'GotoStmt', 'CXXTryStmt', 'CXXForRangeStmt', 'BreakStmt', 'ContinueStmt', 'LabelStmt'):
+                raise Unsupported(f'{k} in {cls}::{method}')
+            if k == 'CompoundStmt':
+                raise Unsupported('nested block')
+            return f'EStmt {q(lr.text_of(n).rstrip(";").strip())}'
+        body = [c for c in m['inner'] if c['kind'] == 'CompoundStmt'][0]
+        parts.append(f'(* ---- statement tree of {cls}::{method} ---- *)\n')
+        parts.append(f'Definition {cls}_{coq_ident(method)}_effects : list eff :=\n  {block(body)}.\n')
+
+    S_IMPL = 'rs_driver/driver/lidar_driver_impl.hpp'
+    jobs += [('fx_splitFrame', lambda: do_effects('LidarDriverImpl', 'splitFrame', S_IMPL)),
+             ('fx_setPointCloudHeader', lambda: do_effects('LidarDriverImpl', 'setPointCloudHeader', S_IMPL)),
+             ('fx_getPointCloud', lambda: do_effects('LidarDriverImpl', 'getPointCloud', S_IMPL))]
     jobs += [('gates_msop', lambda: do_gates('Decoder', 'processMsopPkt', 'rs_driver/driver/decoder/decoder.hpp')),
              ('gates_difop', lambda: do_gates('Decoder', 'processDifopPkt', 'rs_driver/driver/decoder/decoder.hpp'))]
     jobs += [('throttle_sites', lambda: do_throttle_sites([('Decoder', 'processMsopPkt'), ('Decoder', 'processDifopPkt'),
